@@ -49,6 +49,32 @@ CHECKS = {
             'invalid objects must raise TypeError before any read.',
             'Non-ASCII str patterns to a bytes-mode object are unspecified and not generated. Scripted transport.',
             'DESIGN.md 3/C20'),
+    'C13': ('pure functions + probe child',
+            'Hypothesis round trip for split_command_line (quote -> join -> split), generated PATH layouts for which() '
+            'against a docstring reference, and a real probe child reporting argv/cwd/env/winsize/echo/SIGHUP',
+            'Round-trip law over generated argument lists in three protection styles; differential against a '
+            'reference which(); equality between what was requested and what a real child reports (pty string/list '
+            'form, bytes/unicode mode, PopenSpawn).',
+            'Truth for the launch part is what the child itself reports. Double quotes are only used for segments '
+            'without a backslash (unspecified otherwise).',
+            'DESIGN.md 3/C13'),
+    'C18': ('Hypothesis token grammar + exhaustive sweep + atheris',
+            'Hypothesis-generated terminal token sequences with generated cut points; totality/shape/cursor/no-residue '
+            'oracles and a chunking metamorphic relation; thorough adds an exhaustive <=4-token sweep on tiny screens and '
+            'a coverage-guided atheris campaign with a structured byte->token decoder',
+            'Generated and exhaustive search over escape-sequence grammars incl. degenerate parameters, unknown and '
+            'truncated sequences, str/bytes input in three encodings; the parser-residue oracle uses an independent '
+            'regular expression for "completed sequence".',
+            'Parameters up to 12 digits, sequences up to 40 tokens; bytes input is a valid encoding of the text.',
+            'DESIGN.md 3/C18'),
+    'C19': ('E4 reference grid',
+            'model-based testing: Hypothesis-generated operation sequences against a reference grid written from the '
+            'docstrings, all accessors compared after every step; thorough adds an exhaustive <=3-operation sweep on '
+            '1x1, 1x2, 2x2 screens',
+            'Every public screen operation with boundary arguments is compared cell by cell with a reference grid '
+            '(frame condition included); where the docs are silent the model adopts the implementation under a validity predicate.',
+            'erase_down/erase_up read as ESC[0J/ESC[1J; the vacated row of a scroll may stay or become blank; single characters only.',
+            'DESIGN.md 3/C19'),
 }
 
 NOT_YET = {
@@ -98,6 +124,8 @@ def main():
              'serves_properties': ['C01', 'C02', 'C03', 'C04', 'C20'],
              'kind_free_text': 'scripted transport (SpawnBase subclass playing a generated read script, virtual '
                                'clock) + naive reference model of the expect family + Hypothesis generators'},
+            {'name': 'E4', 'path': 'vf/engines/screenmodel.py', 'serves_properties': ['C19'],
+             'kind_free_text': 'reference grid for pexpect.screen written from the docstrings'},
         ],
         'checks': checks,
         'not_applicable': na,
